@@ -944,7 +944,12 @@ def read_returns(eng: Engine, ctx: Ctx, rid: str, model: ReaderModel | None = No
         for g, (flv, a, b) in _joint_leaves([fl] + vals):
             n += 1
             if kind != "break" and (flv == ("loop", lid, flag) or (is_const(flv) and bool(flv[1]))):
-                continue  # loop condition unchanged / still true: no exit on this iteration end
+                # loop condition unchanged / still true: no exit on this iteration end - which is wrong when this iteration has just
+                # assembled a frame (it would be overwritten by the next iteration and never returned)
+                if a == ("proj", call, 0) or b == ("proj", call, 1):
+                    ctx.bad(rid, f.qualname, f"iteration end ({kind}) after a frame was assembled" + (f" under {guard_text(g)[:60]}" if g else ""), expected="the loop is left (condition made false, break or return) with the assembled pair",
+                            found=f"{flag} = {show(flv)[:30]}: the loop continues and the frame is discarded", **loc)
+                continue
             good = a == ("proj", call, 0) and b == ("proj", call, 1)
             ctx.check(good, rid, f.qualname, f"iteration end ({kind}) that can leave the loop" + (f" under {guard_text(g)[:60]}" if g else ""), expected="returned variables = (raw, parsed) of the frame assembler",
                       found=f"{names[0]} = {show(a)[:50]}, {names[1]} = {show(b)[:50]}", **loc)
@@ -1134,8 +1139,16 @@ def _ends_in_continue(eng, ctx, rid, model, call_effect, label):
     rd = model.read
     need = set(call_effect.guards)
 
+    from ..symeval import neg_lit
+
+    def consistent(conj):
+        # joins drop the literals the two sides disagree on, so "the later effect's path condition contains the skip's guard" would miss
+        # code that falls through after the skip; what is required instead is that it does not contradict the guard
+        cs = set(conj)
+        return not any(neg_lit(l) in cs or (l[0], not l[1]) in cs for l in need)
+
     def same_path(e):
-        return e.loops[:1] == call_effect.loops[:1] and any(need <= set(conj) for conj in e.dnf)
+        return e.loops[:1] == call_effect.loops[:1] and any(consistent(conj) for conj in e.dnf)
 
     later = [e for e in model.se.effects if e.seq > call_effect.seq and same_path(e) and e.handler is call_effect.handler]
     bad = [e for e in later if e.kind in ("return", "raise") or (e.kind == "call" and (model.is_read(e.term) or any(is_self_call(e.term, n) for n in
@@ -1185,8 +1198,11 @@ def nmea_skip(eng: Engine, ctx: Ctx, rid: str, model: ReaderModel):
                 ctx.check(e.term == data, rid, lp.qualname, "returned line", expected="the stream's line, unmodified", found=show(e.term)[:60], **eng.loc(lp, e.node))
                 for conj in e.dnf:
                     lo, ge, inf, lt, shi = _len_facts(conj, data, None)
-                    term_ok = any((c[0] == "cmp" and c[1] in ("!=", "==") and is_const(c[3]) and c[3][1] == lf and ((c[1] == "==") == pol)) or
-                                  (c[0] == "call" and c[2] == ("attr", data, "endswith") and pol) for c, pol in conj)
+                    last = (("slice", data, ("const", -1), ("const", None), ("const", None)), ("slice", data, ("const", -len(lf)), ("const", None), ("const", None)))
+                    term_ok = any((c[0] == "cmp" and c[1] in ("!=", "==") and c[2] in last and is_const(c[3]) and c[3][1] == lf and ((c[1] == "==") == pol)) or
+                                  (c[0] == "cmp" and c[1] in ("!=", "==") and c[2] == ("idx", data, ("const", -1)) and c[3] == ("const", lf[0]) and ((c[1] == "==") == pol)) or
+                                  (c[0] == "call" and c[2] == ("attr", data, "endswith") and pol and len(c[3]) == 1 and is_const(c[3][0]) and isinstance(c[3][0][1], bytes) and c[3][0][1].endswith(lf))
+                                  for c, pol in conj)
                     ctx.check(lo >= 1 and term_ok, rid, lp.qualname, "normal return", expected="non-empty line ending in LF", found=guard_text(conj)[:120], **eng.loc(lp, e.node))
             if e.kind == "raise":
                 cls = show(e.term[2]) if e.term[0] == "call" else show(e.term)
@@ -1242,6 +1258,60 @@ def loop_continuation(eng: Engine, ctx: Ctx, rid: str, model: ReaderModel):
 
 
 # ============================================================================ C15-D4 stub path (shared with C02-D7)
+def constructor_admission(eng: Engine, ctx: Ctx, rid: str):
+    """Every payload of two or more bytes is admitted: each raise of the constructor itself (outside the decoding driver) is guarded
+    by `payload is None` / falsy payload, or by a length test whose bound is at most one byte."""
+    ctx.rule(rid, "the message constructor rejects only a missing payload or one shorter than the 12-bit message number: every raise in __init__ is dominated by "
+                  "`payload is None` or `len(payload) < 2`")
+    init = eng.repo.func(f"{eng.message_cls}.__init__")
+    se = eng.symeval(init.qualname)
+    stores = [e for e in se.effects if e.kind == "store" and e.target and e.target[0] == "self" and e.term == ("param", "payload")]
+    P = {("param", "payload")} | {("field", e.target[1]) for e in stores} | {("fieldv", e.target[1]) for e in stores}
+
+    def is_p(t):
+        return t in P or (t[0] == "fieldv" and ("field", t[1]) in P)
+
+    def admits_only_short(conj):
+        for c, pol in conj:
+            if is_p(c) and not pol:
+                return True  # `not payload`: None or empty
+            if c[0] == "cmp" and is_p(c[2]) and is_const(c[3]) and c[3][1] is None and ((c[1] in ("is", "==") and pol) or (c[1] in ("is not", "!=") and not pol)):
+                return True
+            b = _len_upper(c, pol, is_p)
+            if b is not None and b <= 1:
+                return True
+        return False
+
+    n = 0
+    for e in se.effects:
+        if e.kind == "raise":
+            n += 1
+            bad = [conj for conj in e.dnf if not admits_only_short(conj)]
+            ctx.check(not bad, rid, init.qualname, norm(e.node)[:70], expected="raised only for a missing payload or one of fewer than 2 bytes", found=("also under " + guard_text(bad[0])[:100]) if bad else "ok", **eng.loc(init, e.node))
+    return n
+
+
+def _len_upper(c, pol, is_p):
+    """upper bound on len(P) implied by the literal, or None"""
+    if c[0] != "cmp":
+        return None
+    from ..symeval import NEGATE
+
+    op, a, b = c[1], c[2], c[3]
+    if not pol:
+        op = NEGATE.get(op)
+        if op is None:
+            return None
+    is_len = lambda t: t[0] == "call" and t[2] == ("builtin", "len") and len(t[3]) == 1 and is_p(t[3][0])  # noqa: E731
+    if is_len(b) and not is_len(a):
+        a, b = b, a
+        op = {"<": ">", ">": "<", "<=": ">=", ">=": "<=", "==": "==", "!=": "!="}.get(op, op)
+    if not (is_len(a) and is_const(b) and isinstance(b[1], int)):
+        return None
+    k = b[1]
+    return {"<": k - 1, "<=": k, "==": k}.get(op)
+
+
 def stub_path(eng: Engine, ctx: Ctx, rid: str):
     fr = oracle("frames.json")["rtcm3"]
     ctx.rule(rid, "unknown identity: the driver reaches `return` through the stub only, without raising; the stub stores the "
